@@ -1442,7 +1442,7 @@ def lame_parameters(
         if shear_modulus is None:
             if poissons_ratio is not None and youngs_modulus is not None:
                 first_parameter = (
-                    poissons_ratio * youngs_modulus / ((1 + poissons_ratio)(1 - 2 * poissons_ratio))
+                    poissons_ratio * youngs_modulus / ((1 + poissons_ratio) * (1 - 2 * poissons_ratio))
                 )
                 second_parameter = youngs_modulus / (2 * (1 + poissons_ratio))
         elif youngs_modulus is None:
